@@ -130,6 +130,16 @@ fn dump(tcx: TyCtxt<'_>) -> ControlFlow<()> {
     }
     for def in adts {
         let name = def.name();
+        let idef = tcx.adt_def(rustc_public::rustc_internal::internal(tcx, def.0));
+        let ctors: Vec<&str> = idef
+            .variants()
+            .iter()
+            .map(|v| match v.ctor_kind() {
+                Some(rustc_hir::def::CtorKind::Const) => "const",
+                Some(rustc_hir::def::CtorKind::Fn) => "fn",
+                None => "none",
+            })
+            .collect();
         let variants: Vec<_> = def
             .variants_iter()
             .enumerate()
@@ -139,7 +149,7 @@ fn dump(tcx: TyCtxt<'_>) -> ControlFlow<()> {
                 } else {
                     None
                 };
-                json!({"name": v.name(), "discr": discr,
+                json!({"name": v.name(), "discr": discr, "ctor": ctors[i],
                        "fields": v.fields().iter().map(|fd| json!([fd.name.clone(), format!("{}", fd.ty())])).collect::<Vec<_>>()})
             })
             .collect();
